@@ -460,29 +460,24 @@ func init() {
 	)
 	for _, d := range defs {
 		d := d
+		gen := func(rng *kernel.RNG, idx int, tier string) *kernel.Plan {
+			return genFor(d.id, d.w, extras[d.id], rng, tier)
+		}
+		if d.id == "C18" {
+			// registered by lc.Finalize together with the trust-root witness runs over the drivers
+			C18Rule, C18Probes, C18Generate = d.rule, d.probes, gen
+			continue
+		}
+		if d.id == "C16" {
+			// registered by lc.Finalize together with the wall-clock runs over the light-client drivers
+			C16Rule, C16Probes, C16Generate = d.rule, d.probes, gen
+			continue
+		}
 		kernel.Register(&kernel.Check{ID: d.id, Level: "exploration", Engine: "E1 cluster", Rule: d.rule, Real: e1Real, Stub: e1Stub,
-			Assumptions:    []string{"validator set and request state are observed from the implementation's own pre-state; the oracle counts approvals itself"},
-			QuickRuns:      quickRuns(d.id), ThoroughRuns: 6000, QuickCap: 100, ThoroughCap: 900,
+			Assumptions: []string{"validator set and request state are observed from the implementation's own pre-state; the oracle counts approvals itself"},
+			QuickRuns:   quickRuns(d.id), ThoroughRuns: 6000, QuickCap: 100, ThoroughCap: 900,
 			RequiredProbes: d.probes,
-			Generate: func(rng *kernel.RNG, idx int, tier string) *kernel.Plan {
-				pl := govPlan(rng, tier, d.w, extras[d.id])
-				if d.w["crash"] > 0 && pl.Cfg["followers"] == 0 {
-					pl.Cfg["followers"] = 1
-				}
-				if d.w["reexec"] > 0 {
-					pl.Cfg["reexec"] = int64(d.w["reexec"])
-				}
-				if d.id == "C13" || d.id == "C14" {
-					pl.Cfg["lag"] = int64(rng.Intn(2))
-					if pl.Cfg["lag"] == 1 && pl.Cfg["followers"] == 0 {
-						pl.Cfg["followers"] = 1
-					}
-				}
-				if d.w["strict"] > 0 && rng.Chance(0.5) {
-					pl.Cfg["net"], pl.Cfg["legacyheight"] = 1, 0
-				}
-				return pl
-			},
+			Generate:       gen,
 			Execute:        execGov})
 	}
 }
@@ -523,4 +518,39 @@ func quickRuns(id string) int {
 		return 192 // the header-first / hand-over scenarios need several aligned steps
 	}
 	return 96
+}
+
+// exported pieces of the C16 gov batch (see lc.Finalize)
+var (
+	C16Rule     string
+	C16Probes   []string
+	C16Generate func(rng *kernel.RNG, idx int, tier string) *kernel.Plan
+	C18Rule     string
+	C18Probes   []string
+	C18Generate func(rng *kernel.RNG, idx int, tier string) *kernel.Plan
+	E1Real      = e1Real
+	E1Stub      = e1Stub
+)
+
+// ExecGov is the general E1 run (exported for combined checks).
+func ExecGov(run *kernel.Run) { execGov(run) }
+
+func genFor(id string, w map[string]int, extra func(rng *kernel.RNG, steps []kernel.Step) []kernel.Step, rng *kernel.RNG, tier string) *kernel.Plan {
+	pl := govPlan(rng, tier, w, extra)
+	if w["crash"] > 0 && pl.Cfg["followers"] == 0 {
+		pl.Cfg["followers"] = 1
+	}
+	if w["reexec"] > 0 {
+		pl.Cfg["reexec"] = int64(w["reexec"])
+	}
+	if id == "C13" || id == "C14" {
+		pl.Cfg["lag"] = int64(rng.Intn(2))
+		if pl.Cfg["lag"] == 1 && pl.Cfg["followers"] == 0 {
+			pl.Cfg["followers"] = 1
+		}
+	}
+	if w["strict"] > 0 && rng.Chance(0.5) {
+		pl.Cfg["net"], pl.Cfg["legacyheight"] = 1, 0
+	}
+	return pl
 }
